@@ -151,6 +151,9 @@ func vLogAppend(l *log.Log, b []byte) error {
 			a.bounds = append(a.bounds, a.last())
 		}
 	}
+	if vAppendHook != nil {
+		vAppendHook(b)
+	}
 	a.ents = append(a.ents, append([]byte(nil), b...))
 	a.nAppend++
 	vCrashPoint("log.append.after")
@@ -297,3 +300,6 @@ func vSymEntry(name string, index uint64, dlen int) *entry {
 	}
 	return e
 }
+
+// vAppendHook, when set, is called by the model for every Append, before the bytes are stored.
+var vAppendHook func(b []byte)
